@@ -224,3 +224,29 @@ META['C07'] = dict(
     technique='runtime monitoring of every frame reaching Conn.WriteTo (recording PacketConn): reference-decoder rule monitor + intent log matching per send call, virtual time',
     level_text='Exploration: ~2*10^4 (quick) / ~10^6 (thorough) send-API calls with generated parameters plus the frames emitted along host-tracking histories; each frame must decode strictly under refdec, carry the NIC MAC as source, verify its checksums, and match the fields the call asked for.',
     level_note='Trusted base: refdec and the quiescence-based attribution of frames to calls inside the synctest bubble.')
+
+_DHCP_RULE = ('histories of client messages to the real dhcp4_spoofer handler, each in a synctest bubble with a real lease file: per client DISCOVER (without / with requested-IP = free, '
+              'another client\'s offered address, another client\'s leased address, own, router, network, broadcast, off-subnet), repeated DISCOVER, selecting REQUEST (our server id, requested = '
+              'offered / other), selecting another server, renewing, rebooting, DECLINE, RELEASE, INFORM, with and without client-id option and parameter request list; Capture/Release toggles; '
+              'time advances 5 s / 1 min / lease/2 / lease+ followed by MinuteTicker; a foreign server\'s OFFER on port 68; frames that make the session track an address. Three network '
+              'configurations (home /28 + netfilter /29, /24 + /25, /28 + /30: small pools so wrap-around and exhaustion happen), three modes, DNS configured or not. Bounded-exhaustive over a '
+              '14-operation alphabet on two clients to depth 3 (quick) / 5 (thorough) plus PRNG histories of length 30 on three clients. Oracle: wire-only monitor (requests built and replies '
+              'decoded by refdec) with a shadow table of acknowledged bindings. Non-trivial = a history with at least one ACK; distinct = (operation-kind multiset, network configuration)')
+for _p in ('C11', 'C12'):
+    PROPS[_p] = dict(
+        runs=[run('plain')], shards=16, watchdog=True, level='exploration', workload='dhcp', rule=_DHCP_RULE,
+        assumptions=['the wire monitor of DESIGN appendix B; the capture state is known to the harness because it toggles it',
+                     'C11 shadow ends a binding generously (expiry, DECLINE/RELEASE, NAK, re-ACK, the client\'s next DISCOVER); C12 "current lease" ends only on expiry, DECLINE/RELEASE, NAK, re-ACK',
+                     'MinuteTicker is called by the harness after every time advance (documented usage)'],
+        exhaustive={'quick': True, 'thorough': True}, exhaustive_note='exhaustive only for the 14-operation alphabet up to exhaustive_depth', obs_max=['exhaustive_depth'],
+        min_obs={'quick': {'dhcp_acks': 2000, 'dhcp_offers': 5000, 'dhcp_naks': 500, 'capture_toggles': 500, 'dhcp_expiries': 100}, 'thorough': {'dhcp_acks': 2000}},
+        timeout={'quick': 1200, 'thorough': 8*3600},
+    )
+META['C11'] = dict(
+    technique='runtime monitoring: online wire monitor with a shadow binding table over the DHCP replies of the real handler, virtual time, bounded-exhaustive + random histories',
+    level_text='Exploration, exhaustive over a 14-operation alphabet to depth 3 (quick) / 5 (thorough): every OFFER/ACK on the wire is checked against the shadow of acknowledged bindings and the reserved-address rules (own, router, network, broadcast, outside the subnet, tracked for another MAC).',
+    level_note='Trusted base: refdec DHCP codec, the shadow-table rules of appendix B, synctest virtual time for lease expiry.')
+META['C12'] = dict(
+    technique='runtime monitoring: online wire monitor of reply options and transaction conformance per capture state, virtual time',
+    level_text='Exploration (same histories as C11): every OFFER/ACK must carry the options of the subnet selected by the capture state at that moment, echo xid/chaddr, and an ACK must confirm the offer of this transaction or the current lease; un-honourable requests must get NAK or silence.',
+    level_note='Trusted base: as C11; the monitor knows the capture state because the harness toggles it.')
